@@ -38,9 +38,12 @@ def make_spec(case):
             forms=forms)
     elif fam == "fixedscale":
         n = int(rng.integers(2, 5))
-        pats = [str(rng.choice(["two", "two", "fixed"])) for _ in range(n)]
+        pats = [str(rng.choice(["two", "two", "fixed", "width2", "zero"]))
+                for _ in range(n)]
         if all(p == "fixed" for p in pats):
             pats[0] = "two"
+        if rng.random() < 0.2:
+            pats = ["width2"] * n     # unit scaling factors, non-zero shifts
         spec = gen.general(rng, n=n, con="nl", forms=forms,
                            bound_patterns=("two",), maxfev=(30, 150))
         x0 = np.asarray(spec["x0"])
